@@ -144,7 +144,7 @@ def _equal_edges(fn, cmp_pts):
     for b in P.switch_blocks(fn):
         for s in K.cond_sources(fn, b.idx):
             if s["k"] == "bin" and s["pt"] in set(cmp_pts):
-                eq_lab = "otherwise" if s["op"] == "Eq" else "sw:0"
+                eq_lab = "sw:1" if s["op"] == "Eq" else "sw:0"
                 out.add((b.idx, eq_lab))
     return out
 
